@@ -48,7 +48,10 @@ class C08(core.Check):
         for p in progs:
             if tier == "quick" and p == "combs-60":
                 continue       # 60 combinators: ~15 s per compile, thorough tier only
-            for poles in (POLES if tier == "thorough" else [None, "small", "medium"]):
+            menu = POLES if tier == "thorough" else [None, "small", "medium"]
+            if tier == "quick" and p in ("entity", "lamps-10", "fanout-far"):
+                menu = POLES         # the 2x2 poles (big, substation) on three programs in the quick tier as well
+            for poles in menu:
                 for opt in ((True, False) if (tier == "thorough" or poles is None) else (True,)):
                     ans = answers_for(tier, p in SIZED)
                     for i in range(0, len(ans), 5):
